@@ -82,7 +82,11 @@ func workerMain(args []string) int {
 			if len(parts) == 2 {
 				name = parts[1]
 			}
-			ov[filepath.Join(*repo, *pkg, name)] = b
+			if filepath.IsAbs(name) {
+				ov[name] = b
+			} else {
+				ov[filepath.Join(*repo, *pkg, name)] = b
+			}
 		}
 		t0 := time.Now()
 		prog, err := interp.Load(*repo, ov, "./"+*pkg)
